@@ -70,7 +70,7 @@ func (g *genState) pick(ws map[string]int, allowed func(string) bool) string {
 	return names[len(names)-1]
 }
 
-var kindOrder = []string{"begin", "set", "setreader", "create", "delete", "get", "getreader", "getkeys", "commit", "rollback", "collect", "drain", "reopen", "emptykey", "lateread", "latewrite", "latetx", "phantom", "getreader_gc"}
+var kindOrder = []string{"begin", "set", "setreader", "create", "delete", "get", "getreader", "getkeys", "commit", "rollback", "collect", "drain", "reopen", "otherdb", "emptykey", "lateread", "latewrite", "latetx", "phantom", "getreader_gc"}
 
 func (g *genState) key() string { return g.p.Keys[g.rng.Intn(len(g.p.Keys))] }
 
@@ -173,7 +173,7 @@ func Generate(rng *rand.Rand, p Profile) []Step {
 			g.emit(Step{Op: "getkeys", Actor: g.actor()})
 		case "commit", "rollback":
 			g.emit(Step{Op: kind, Actor: open[rng.Intn(len(open))]})
-		case "collect", "drain", "reopen":
+		case "collect", "drain", "reopen", "otherdb":
 			g.emit(Step{Op: kind, Actor: refmodel.Autocommit})
 		case "emptykey":
 			tag, n := g.value()
